@@ -26,6 +26,12 @@ func (e *ErrBatchCorrupted) Error() string {
 	return fmt.Sprintf("leveldb: batch corrupted: %s", e.Reason)
 }
 
+// errBatchObsolete is returned by decodeBatchToMem for a batch that lies
+// entirely at or below the expected sequence number: its records have been
+// flushed into a table before. Recover meets such batches, it replays every
+// journal it finds, also one that a crash left behind after its flush.
+var errBatchObsolete = errors.New("leveldb: batch obsolete")
+
 func newErrBatchCorrupted(reason string) error {
 	return errors.NewErrCorrupted(storage.FileDesc{}, &ErrBatchCorrupted{reason})
 }
@@ -328,6 +334,9 @@ func decodeBatchToMem(data []byte, expectSeq uint64, mdb *memdb.DB) (seq uint64,
 		return 0, 0, err
 	}
 	if seq < expectSeq {
+		if seq+uint64(batchLen) <= expectSeq+1 {
+			return 0, 0, errBatchObsolete
+		}
 		return 0, 0, newErrBatchCorrupted("invalid sequence number")
 	}
 	data = data[batchHeaderLen:]
